@@ -82,17 +82,14 @@ theorem runTops_ok (ts : List Top) (env : List Binding)
 /-! ### `remove_unused_variables` -/
 
 /-- What the exporter may assume about one statement: `used_variables()` over-approximates the local
-reads, and an assertion attached to a statement talks about the value it binds or a variable it reads
-(or a static field, `root = none`). -/
-def StmtScoped (s : Stmt) : Prop :=
-  (∀ v ∈ s.reads, v ∈ s.uses) ∧ (∀ v ∈ assertRoots s, some v = s.bound ∨ v ∈ s.reads)
+reads.  (The variables read by its assertions need no assumption: the pass itself keeps them alive.) -/
+def StmtScoped (s : Stmt) : Prop := ∀ v ∈ s.reads, v ∈ s.uses
 
 theorem removeUnusedAux_cons (s : Stmt) (ss : List Stmt) :
     removeUnusedAux (s :: ss) = ruStep s (removeUnusedAux ss) := rfl
 
-theorem assertRoots_dropBinding (s : Stmt) (h : s.simpleAssign = true) :
-    assertRoots (dropBinding s) = [] := by
-  simp [dropBinding, h, assertRoots]
+theorem assertRoots_dropBinding (s : Stmt) : assertRoots (dropBinding s) = assertRoots s := by
+  unfold dropBinding; split <;> rfl
 
 theorem ru_inv (ss : List Stmt) (h : ∀ s ∈ ss, StmtScoped s) :
     (∀ v ∈ freeReads (removeUnusedAux ss).1, v ∈ (removeUnusedAux ss).2) ∧
@@ -101,7 +98,7 @@ theorem ru_inv (ss : List Stmt) (h : ∀ s ∈ ss, StmtScoped s) :
   | nil => simp [removeUnusedAux, freeReads]
   | cons s ss ih =>
     obtain ⟨ih1, ih2⟩ := ih (fun s' hs' => h s' (by simp [hs']))
-    obtain ⟨hs1, hs2⟩ := h s (by simp)
+    have hs1 := h s (by simp)
     rw [removeUnusedAux_cons]
     generalize removeUnusedAux ss = acc at ih1 ih2
     obtain ⟨out, alive⟩ := acc
@@ -115,10 +112,8 @@ theorem ru_inv (ss : List Stmt) (h : ∀ s ∈ ss, StmtScoped s) :
         simp only [List.mem_append, List.mem_filter] at hv ⊢
         rcases hv with hv | ⟨hv | hv, _⟩
         · exact Or.inr (hs1 v hv)
-        · rcases hs2 v hv with e | e
-          · simp [hb] at e
-          · exact Or.inr (hs1 v e)
-        · exact Or.inl (ih1 v hv)
+        · exact Or.inl (Or.inr hv)
+        · exact Or.inl (Or.inl (ih1 v hv))
       · intro v hv
         simp only [List.mem_append, List.mem_filter] at hv ⊢
         rcases hv with hv | ⟨hv | hv, hne⟩
@@ -127,18 +122,15 @@ theorem ru_inv (ss : List Stmt) (h : ∀ s ∈ ss, StmtScoped s) :
         · exact Or.inr ⟨Or.inr (ih2 v hv), hne⟩
     | some bv =>
       simp only
-      by_cases hal : bv ∈ alive
+      by_cases hal : bv ∈ alive ++ assertRoots s
       · simp only [hal, if_true, freeReads, hb]
         constructor
         · intro v hv
           simp only [List.mem_append, List.mem_filter] at hv ⊢
           rcases hv with hv | ⟨hv | hv, hne⟩
           · exact Or.inr (hs1 v hv)
-          · rcases hs2 v hv with e | e
-            · simp [hb] at e; subst e; simp at hne
-            · exact Or.inr (hs1 v e)
-          · refine Or.inl ⟨ih1 v hv, ?_⟩
-            simpa using hne
+          · exact Or.inl ⟨Or.inr hv, by simpa using hne⟩
+          · exact Or.inl ⟨Or.inl (ih1 v hv), by simpa using hne⟩
         · intro v hv
           simp only [List.mem_append, List.mem_filter] at hv ⊢
           rcases hv with hv | ⟨hv | hv, hne⟩
@@ -146,24 +138,32 @@ theorem ru_inv (ss : List Stmt) (h : ∀ s ∈ ss, StmtScoped s) :
           · exact Or.inr ⟨Or.inl hv, hne⟩
           · exact Or.inr ⟨Or.inr (ih2 v hv), hne⟩
       · simp only [hal, if_false]
+        have hnotin : ∀ v, (v ∈ assertRoots s ∨ v ∈ freeReads out) → v ≠ bv := by
+          intro v hv e
+          subst e
+          apply hal
+          simp only [List.mem_append]
+          rcases hv with hv | hv
+          · exact Or.inr hv
+          · exact Or.inl (ih1 v hv)
         by_cases hsa : s.simpleAssign = true
-        · -- the binding is removed; nothing later reads `bv`
-          have hd : dropBinding s = { s with bound := none, asserts := [], acc := none } := by
+        · -- the binding is removed; nothing later (and no assertion of the statement) reads `bv`
+          have hd : dropBinding s = { s with bound := none } := by
             simp [dropBinding, hsa]
-          simp only [freeReads, hd, assertRoots, List.filterMap_nil, List.nil_append]
+          simp only [freeReads, hd, assertRoots]
           constructor
           · intro v hv
             simp only [List.mem_append, List.mem_filter] at hv ⊢
-            rcases hv with hv | ⟨hv, _⟩
+            rcases hv with hv | ⟨hv | hv, _⟩
             · exact Or.inr (hs1 v hv)
-            · exact Or.inl (ih1 v hv)
+            · exact Or.inl (Or.inr hv)
+            · exact Or.inl (Or.inl (ih1 v hv))
           · intro v hv
             simp only [List.mem_append, List.mem_filter] at hv ⊢
-            rcases hv with hv | ⟨hv, _⟩
+            rcases hv with hv | ⟨hv | hv, _⟩
             · exact Or.inl hv
-            · refine Or.inr ⟨Or.inr (ih2 v hv), ?_⟩
-              have : v ≠ bv := fun e => hal (e ▸ ih1 v hv)
-              simpa [hb] using this
+            · exact Or.inr ⟨Or.inl hv, by simpa [hb] using hnotin v (Or.inl hv)⟩
+            · exact Or.inr ⟨Or.inr (ih2 v hv), by simpa [hb] using hnotin v (Or.inr hv)⟩
         · have hd : dropBinding s = s := by simp [dropBinding, hsa]
           simp only [freeReads, hd, hb]
           constructor
@@ -171,10 +171,8 @@ theorem ru_inv (ss : List Stmt) (h : ∀ s ∈ ss, StmtScoped s) :
             simp only [List.mem_append, List.mem_filter] at hv ⊢
             rcases hv with hv | ⟨hv | hv, hne⟩
             · exact Or.inr (hs1 v hv)
-            · rcases hs2 v hv with e | e
-              · simp [hb] at e; subst e; simp at hne
-              · exact Or.inr (hs1 v e)
-            · exact Or.inl (ih1 v hv)
+            · exact Or.inl (Or.inr hv)
+            · exact Or.inl (Or.inl (ih1 v hv))
           · intro v hv
             simp only [List.mem_append, List.mem_filter] at hv ⊢
             rcases hv with hv | ⟨hv | hv, hne⟩
@@ -182,8 +180,8 @@ theorem ru_inv (ss : List Stmt) (h : ∀ s ∈ ss, StmtScoped s) :
             · exact Or.inr ⟨Or.inl hv, hne⟩
             · exact Or.inr ⟨Or.inr (ih2 v hv), hne⟩
 
-/-- Every statement of the cleaned test case is an original statement, possibly with its binding
-(and with it the assertions and the accessible) dropped. -/
+/-- Every statement of the cleaned test case is an original statement, possibly with its binding dropped
+(assertions and accessible stay). -/
 theorem mem_removeUnused {ss : List Stmt} {st' : Stmt} (h : st' ∈ removeUnused ss) :
     ∃ st ∈ ss, st' = st ∨ st' = dropBinding st := by
   unfold removeUnused at h
@@ -193,6 +191,7 @@ theorem mem_removeUnused {ss : List Stmt} {st' : Stmt} (h : st' ∈ removeUnused
     rw [removeUnusedAux_cons] at h
     have key : st' = s ∨ st' = dropBinding s ∨ st' ∈ (removeUnusedAux ss).1 := by
       unfold ruStep at h
+      dsimp only at h
       split at h
       · split at h <;> simp at h <;> rcases h with h | h <;> simp [h]
       · simp at h; rcases h with h | h <;> simp [h]
@@ -208,11 +207,15 @@ theorem dropBinding_grefs (s : Stmt) : (dropBinding s).grefs = s.grefs := by
 theorem dropBinding_exc (s : Stmt) : (dropBinding s).exc = s.exc := by
   unfold dropBinding; split <;> rfl
 
+theorem dropBinding_asserts (s : Stmt) : (dropBinding s).asserts = s.asserts := by
+  unfold dropBinding; split <;> rfl
+
+theorem dropBinding_acc (s : Stmt) : (dropBinding s).acc = s.acc := by
+  unfold dropBinding; split <;> rfl
+
 theorem dropBinding_asserts_sub (s : Stmt) {a : Assertion} (h : a ∈ (dropBinding s).asserts) :
     a ∈ s.asserts := by
-  unfold dropBinding at h; split at h
-  · simp at h
-  · exact h
+  rw [dropBinding_asserts] at h; exact h
 
 /-! ### `_build_test_function` -/
 
